@@ -228,7 +228,7 @@ func (p probe) coq() string {
 	case p.gen >= 0:
 		return "(PGen " + c.Nat(p.gen) + ")"
 	}
-	return fmt.Sprintf("(PSplice %s %s %s)", c.Nat(p.pos), c.Nat(p.del), c.Str(p.ins))
+	return fmt.Sprintf("(PSplice %s %s %s)", c.N(p.pos), c.N(p.del), c.Str(p.ins))
 }
 
 func splice(pos, del int, ins string) probe { return probe{gen: -1, pos: pos, del: del, ins: ins} }
